@@ -30,7 +30,9 @@ PROPS = {
     "C08": {"lean": ["WorkflowModel.Props.C08"], "suites": SIMADV, "modelled": ENGINE_MODELLED, "assumptions": ["operations atomic with respect to each other"]},
     "C09": {"lean": ["WorkflowModel.Props.C09"], "suites": SIM, "modelled": ENGINE_MODELLED, "assumptions": ["store = reference contract (Latest = newest created run)"]},
     "C10": {"lean": ["WorkflowModel.Props.C10Shard"], "suites": ["pure-shards"] + SIM, "assumptions": []},
-    "C12": {"lean": ["WorkflowModel.Props.C12"], "suites": SIMADV + ["sim-timeouts"], "modelled": ENGINE_MODELLED, "assumptions": ["one timeout per status (two: finding F19)"]},
+    "C12": {"lean": ["WorkflowModel.Props.C12", "WorkflowModel.Props.C12Store"], "suites": SIMADV + ["sim-timeouts", "mem-timeoutstore"],
+            "modelled": ENGINE_MODELLED + ["RefTimeouts (lean/WorkflowModel/Model/Adapters/RefTimeouts.lean) is the store contract; memtimeoutstore is tied to it by differential runs"],
+            "assumptions": ["one timeout per status (two: finding F19)"]},
     "C13": {"lean": ["WorkflowModel.Props.C13"], "suites": SIM + ["sim-pause"], "modelled": ENGINE_MODELLED,
             "assumptions": ["single instance (the counter is in process memory)", "error-counter key injective on the triples that occur"]},
     "C14": {"lean": ["WorkflowModel.Props.C14"], "suites": SIM, "modelled": ENGINE_MODELLED, "assumptions": []},
@@ -40,4 +42,8 @@ PROPS = {
     "C17": {"lean": ["WorkflowModel.Props.C17"], "suites": ["mem-recordstore"],
             "modelled": ["RefStore (lean/WorkflowModel/Model/Adapters/RefStore.lean) is the contract; memrecordstore is tied to it by differential runs, not by a Lean model of its maps"],
             "assumptions": ["a run ID belongs to one (workflow, foreign ID) for ever", "offsets >= 0"]},
+    "C19": {"lean": ["WorkflowModel.Props.C19"], "suites": ["mem-streamer", "mem-connector"],
+            "modelled": ["RefStream (lean/WorkflowModel/Model/Adapters/RefStream.lean) is the contract; memstreamer and its connector are tied to it by differential runs (exhaustive short sequences + random), not by a Lean model of the Go loop",
+                         "would-block is observed through a context that reports cancellation after a fixed number of polls of the receiver's loop"],
+            "assumptions": ["a receiver name is used on one topic (as the engine's role names are)", "one live receiver per name (C11 provides it)"]},
 }
